@@ -85,6 +85,39 @@ def gen(rng, nmax=4):
     return c
 
 
+def gen_dark(rng):
+    """state_prep_error > 0 with a bad-atom mask (hand-built SequenceData): 2-4 atoms, at least one dark atom with a
+    HIGHER index than a well-prepared neighbour, strong interactions, and a channel that can excite |g> on the dark
+    atom (depolarizing or an eff_noise operator with a g->r component). Reference = exact Lindblad evolution with the
+    dark atoms undriven and non-interacting (= reduced system (x) the dark atoms' own single-atom noisy evolution)."""
+    c = ic.gen_case(rng, nmin=2, nmax=4, max_steps=4, noisy=True)
+    n = c["n"]
+    bad = [False] * n
+    j = rng.randrange(1, n)
+    bad[j] = True
+    for q in range(n):
+        if q != j and q != j - 1 and rng.random() < 0.25:
+            bad[q] = True
+    c["bad"], c["spe"] = bad, rng.choice([0.05, 0.2])
+    c["init"], c["init_mixed"] = None, None          # initial state + state_prep_error is rejected by the back-end
+    U = [[0.0] * n for _ in range(n)]
+    for a in range(n):
+        for b in range(a + 1, n):
+            U[a][b] = U[b][a] = rng.uniform(10.0, 40.0)
+    c["U"], c["masked"], c["slm_end"] = U, [r[:] for r in U], 0.0
+    c["kt"] = rng.choice([1e-8, 1e-10])
+    c["obs0"] = True
+    rate = rng.choice([1.0, 5.0])
+    if rng.random() < 0.5:
+        c["noise"] = [("depolarizing", rate, None)]
+    else:
+        sc = math.sqrt(rate)
+        c["noise"] = [("eff_noise", rate, ([[0.0, 0.0], [sc, 0.0]], [[0.0, 0.0], [0.0, 0.0]]))]   # sqrt(rate)|r><g|
+        if rng.random() < 0.5:
+            c["noise"].append(("relaxation", rng.choice([0.1, 1.0]), None))
+    return c
+
+
 def observables(case):
     from pulser.backend import StateResult, Energy, Occupation
     T = case["times"][-1]
@@ -165,7 +198,8 @@ def check(rep: Report, tier: str, seed: int) -> None:
                 "inside a step, 1-3 channels out of dephasing / relaxation / depolarizing / random complex 2x2 eff_noise "
                 "with rates 0.01..5 per us, optional user-supplied initial density matrix (random pure, or random MIXED with "
                 "purity < 1) run twice with the same config object + bit-for-bit check of the caller's tensor, laser-off "
-                "steps, krylov_tolerance 1e-8..1e-12. "
+                "steps, krylov_tolerance 1e-8..1e-12; plus a stream with state_prep_error > 0 and bad-atom masks (dark atom with a "
+                "higher index than a well-prepared neighbour, U 10-40, depolarizing or g->r eff_noise). "
                 "non-trivial = at least 2 steps")
     rep.assumptions = [
         "positivity of the exact flow (Lindblad's theorem) is not proved: PositivityAssumed; validated by min eigenvalue",
@@ -177,11 +211,14 @@ def check(rep: Report, tier: str, seed: int) -> None:
     rng = seeded(seed * 7919 + 116)
     import torch
     torch.manual_seed(seed)
-    n_cases = 60 if tier == "quick" else 1500
+    n_cases = 52 if tier == "quick" else 1500
     cases, outs, due = [], [], []
     worst = 0.0
-    for i in range(n_cases):
-        case = gen(rng, 4 if i % 4 == 0 else 3)
+    n_dark = 12 if tier == "quick" else 300
+    for i in range(n_cases + n_dark):
+        case = gen(rng, 4 if i % 4 == 0 else 3) if i < n_cases else gen_dark(rng)
+        if case.get("bad"):
+            rep.count("cases_with_badly_prepared_atoms")
         try:
             out = run_case(case)
             if out["status"] == "ok" and has_user_state(case):
